@@ -684,6 +684,30 @@ def elem_effects(c):
     return out
 
 
+def swap_bool_rule(ck, fb):
+    """the deleted flags live in std::vector<bool>: its elements are proxy references, so the helper that exchanges two
+    of them has to save the first *value* (a bool) - a saved proxy aliases the bit that is overwritten next"""
+    from .canon import Canon
+    ck.rule("C17.swapbool", "detail::swap_bool saves the first flag in a local of type bool (a value, not a vector<bool> proxy), then assigns second -> first and the saved value -> second")
+    fs = [f for f in fb.repo_fns() if f.name == "swap_bool" and f.has_cfg]
+    if len(fs) != 1:
+        raise AnalysisBroken("anchor vanished: detail::swap_bool (found %d)" % len(fs))
+    f = fs[0]
+    cn = Canon(f)
+    decls = [(v, b, i) for v, b, i in cn.decl.values()]
+    asg = []
+    for b, i, x in f.tops():
+        a = as_assign(x)
+        if a:
+            asg.append((b, i, cn.s(a[0]), cn.s(a[1])))
+    asg.sort(key=lambda z: (-z[0], z[1]))
+    ok_t = len(decls) == 1 and decls[0][0]["t"] == "bool"
+    tmp_init = cn.s(decls[0][0].get("init")) if decls else ""
+    ok_shape = len(asg) == 2 and "P0" in tmp_init and "P1" not in tmp_init and asg[0][2:] == ("P0", "P1") and asg[1][2] == "P1" and asg[1][3] == tmp_init
+    (ck.ok if ok_t else lambda r, w, t: ck.violate(r, w, t, "C17.swapbool:type"))("C17.swapbool", f.where, "swap_bool keeps the first flag in a local of type bool (found %s)" % [d[0]["t"] for d in decls])
+    (ck.ok if ok_shape else lambda r, w, t: ck.violate(r, w, t, "C17.swapbool:shape"))("C17.swapbool", f.where, "swap_bool: tmp = a; a = b; b = tmp (found tmp = %s; %s)" % (tmp_init, ["%s = %s" % z[2:] for z in asg]))
+
+
 # ------------------------------------------------------------------------------------ C17
 def run_c17(ck, fb, fbd):
     c = Ctx(ck, fb)
@@ -692,6 +716,7 @@ def run_c17(ck, fb, fbd):
     lockstep(c, "L.swap", ("swap",), {"flag", "props", "cache"}, skip_fns=("collapse_edge",))
     swaps = [f for f in c.fns if any(e["cls"] == "swap" and e["role"] in ("def", "flag") for e in c.eff.get(f.id, []))]
     ck.floor("swap_functions", len(swaps), 4)
+    swap_bool_rule(ck, fb)
     ck.rule("C17.noop", "swapping a handle with itself returns before any effect: every effect site of swap_K_indices is guarded by !(_h1 == _h2)")
     for f in swaps:
         eq = None
